@@ -8,7 +8,7 @@ import AgVerif.Model.Translate
 
 namespace AgVerif.Translate
 open AgVerif.JavaSem
-open AgVerif.Gen.Translate (CtxRow)
+open AgVerif.Gen.Translate (CtxRow Ctx2Row)
 
 /-- lexemes of the text `printExpr` produces, with `#` for every literal -/
 def lexExpr : Expr → List String
@@ -90,5 +90,45 @@ def ctxRowOk (r : CtxRow) : Bool :=
 def ctxComplete (rows : List CtxRow) : Bool :=
   ctxList.all (fun c => (rows.filter fun r => (r.family, r.op, r.aux) == c).length == 1) &&
   rows.length == ctxList.length
+
+/-! ## two-level contexts: ((x op1 c1) op2 c2) and (c1 op1 (x op2 c2)) -/
+
+def ctxExpr2 (shape op1 op2 ty : String) (c1 c2 : Int) : Option Expr := do
+  let o1 ← binOpOfText op1
+  let o2 ← binOpOfText op2
+  let t ← tyOfDesc ty
+  let long := ty == "J"
+  if shape = "A" then some (.bin o2 (.bin o1 (.var t 1) (.lit c1 long)) (.lit c2 long))
+  else if shape = "B" then some (.bin o1 (.lit c1 long) (.bin o2 (.var t 1) (.lit c2 long)))
+  else none
+
+def ops2I : List String := ["+", "-", "*", "&", "|", "^", "<<", ">>", ">>>"]
+def ops2J : List String := ["+", "-", "*", "&"]
+
+def ctx2List : List (String × String × String × String) :=
+  ["A", "B"].flatMap fun sh =>
+    (ops2I.flatMap fun a => ops2I.map fun b => (sh, a, b, "I")) ++ (ops2J.flatMap fun a => ops2J.map fun b => (sh, a, b, "J"))
+
+/-- pairs that must be among the constants: the ones whose sum / product leaves the range -/
+def requiredPairs (long : Bool) : List (Nat × Nat) :=
+  if long then [(off + 9223372036854775807, off + 9223372036854775807), (0, 0), (off + 4611686018427387904, off + 4611686018427387904),
+                (off + 9223372036854775807, off + 1), (0, off - 1), (off + 6000000000000000000, off + 6000000000000000000)]
+  else [(off + 2147483647, off + 2147483647), (off - 2147483648, off - 2147483648), (off + 1073741824, off + 1073741824),
+        (off + 2147483647, off + 1), (off - 2147483648, off - 1), (off + 1500000000, off + 1500000000),
+        (off - 1500000000, off - 1500000000)]
+
+/-- a generated two-level row is the nest the model prints: the expected lexemes (nothing folded or re-associated), two
+    literals of the expected kind, for all the constant pairs including the overflowing ones, each denoting its constant -/
+def ctx2RowOk (r : Ctx2Row) : Bool :=
+  match ctxExpr2 r.shape r.op1 r.op2 r.ty 0 0 with
+  | some e =>
+    let long := r.ty == "J"
+    r.template == lexExpr e && r.kinds == (if long then "long,long" else "int,int") && r.lits == r.vals &&
+    (requiredPairs long).all (fun p => r.vals.contains p)
+  | none => false
+
+def ctx2Complete (rows : List Ctx2Row) : Bool :=
+  ctx2List.all (fun c => (rows.filter fun r => (r.shape, r.op1, r.op2, r.ty) == c).length == 1) &&
+  rows.length == ctx2List.length
 
 end AgVerif.Translate
